@@ -13,7 +13,7 @@ from vf import core
 PROPERTY = 'C07'
 LEVEL = 'exploration'
 RULE = ('(a) token/byte-level mutations (delete, duplicate, swap, insert a token of the grammar alphabet, re-indent a line, unbalance a bracket, truncate) of generated (G2) sources and real (G3) files, '
-	'(b) token soups over the terminal alphabet of grammar.lark, (b2) very deep inputs (20-1000 levels of brackets, calls, blocks, prefix operators, attribute/subscript chains; flat inputs of the same size as controls), (c) well-formed but ill-typed programs (G2 without the node-model restrictions, undefined names/attributes, wrong arity ...); '
+	'(a2) files that are not valid UTF-8 (on-disk entry point only; must be Errors.Syntax), (b) token soups over the terminal alphabet of grammar.lark, (b2) very deep inputs (20-1000 levels of brackets, calls, blocks, prefix operators, attribute/subscript chains; flat inputs of the same size as controls), (c) well-formed but ill-typed programs (G2 without the node-model restrictions, undefined names/attributes, wrong arity ...); '
 	'each fed through both entry points (in-memory module, on-disk module in a scratch project) and the stages Modules.load -> ITranspiler.transpile; outcome must be ok or Errors.Error, '
 	'text rejected by CPython and by lark must be Errors.Syntax on both entry points, str(ErrorRender(e)) must return; plus the Interactive loop with a scripted tty (bad, bad, good). '
 	'Failures are bucketed by (exception type, innermost rogw frame). non-trivial = the input reaches beyond the lexer (parses and fails later, or the parse error is past the first statement); distinct by (outcome bucket, source hash)')
@@ -117,6 +117,12 @@ def cases(draw, exclude: frozenset = frozenset()):
 		top = 120 if 'deep-nesting' in exclude and not shape.startswith('flat') else 1000   # the listed finding is kept out by construction
 		n = int(20 * (top / 20) ** rnd.random())
 		return {'source': DEEP_SHAPES[shape](n), 'kind': f'deep:{shape}'}
+	if rnd.randint(1, 40) <= 2:
+		# a file that is not valid UTF-8 (a Latin-1 letter, a truncated multi-byte sequence, a stray continuation byte) at a random place of a
+		# valid module: raw bytes travel through the case as lone surrogates (surrogateescape)
+		src, _ = syngen.gen_module(rnd, 'mixed', friendly=True)
+		at = rnd.randint(0, len(src))
+		return {'source': src[:at] + rnd.choice(['\udce9', '\udcff', '\udcc3', '\udc80', '\udce2\udc82', '# \udce9\n']) + src[at:], 'kind': 'invalid-utf8'}
 	c = rnd.randint(0, 9)
 	if c <= 5:
 		src, _ = syngen.gen_module(rnd, rnd.choice(['mixed', 'mixed', 'expr']), friendly=rnd.random() < 0.5)
@@ -235,8 +241,11 @@ def judge(scratch: str, source: str) -> tuple[list[tuple[str, str]], dict]:
 	# a fresh module name per case on disk: caches are keyed by path + mtime
 	modname = f'c07m{a["n"]}'
 	path = os.path.join(a['proj'], modname + '.py')
-	with open(path, 'w', encoding='utf-8', newline='') as f:
-		f.write(source if source.endswith('\n') else source + '\n')
+	raw_bytes = any('\udc80' <= ch <= '\udcff' for ch in source)   # the file is not valid UTF-8: only the on-disk entry point can be given it
+	if raw_bytes:
+		py_ok = False
+	with open(path, 'wb') as f:
+		f.write((source if source.endswith('\n') else source + '\n').encode('utf-8', 'surrogateescape'))
 
 	def load_disk():
 		disk.modules.unload(modname)
@@ -244,7 +253,8 @@ def judge(scratch: str, source: str) -> tuple[list[tuple[str, str]], dict]:
 
 	try:
 		with watchdog(20):
-			outcomes['memory'] = run_pipeline(lambda: mem.load_main(source), lambda m: mem.transpiler.transpile(m.entrypoint))
+			if not raw_bytes:
+				outcomes['memory'] = run_pipeline(lambda: mem.load_main(source), lambda m: mem.transpiler.transpile(m.entrypoint))
 			outcomes['disk'] = run_pipeline(load_disk, lambda m: disk.transpiler.transpile(m.entrypoint))
 			for where, (outcome, exc, stage) in outcomes.items():
 				if outcome == 'crash':
@@ -253,6 +263,8 @@ def judge(scratch: str, source: str) -> tuple[list[tuple[str, str]], dict]:
 					bad = render_ok(exc, a['proj'] if where == 'disk' else None)
 					if bad:
 						fails.append((f'{where}:render:crash:{bad}', f'ErrorRender failed for {type(exc).__name__}'))
+			if raw_bytes and outcomes['disk'][0] not in ('error:Syntax', 'crash'):
+				fails.append((f'disk:undecodable-not-Syntax:{outcomes["disk"][0]}', f'a file that is not valid UTF-8 was reported as {outcomes["disk"][0]}'))
 			lark_rejects = any(o[0] == 'error:Syntax' or (o[0] == 'crash' and o[2] == 'load' and type(o[1]).__module__.startswith('lark')) for o in outcomes.values())
 			if not py_ok and lark_rejects:
 				for where, (outcome, exc, stage) in outcomes.items():
